@@ -25,6 +25,10 @@ from concurrent.futures import ThreadPoolExecutor
 
 from . import known, tlc
 
+J = max(1, int(os.environ.get("VERIF_JOBS") or os.cpu_count() or 4))   # size of every process pool
+JVMS = max(1, J // 4)                                                    # TLC JVMs running side by side
+TW = min(4, J)                                                           # workers of a stage-1 TLC run
+
 RULES = ["ExclusiveUse", "NotPooledWhileUsed", "NoDuplicate", "BlockBound", "OwnResponse", "ClosedPoolOutcome",
          "ClosedAndDroppedLeavesNothing"]
 
@@ -89,7 +93,7 @@ def _stage1_plans(quick):
                 stream = (m == 2) != closer     # both response modes appear under every (block, closer)
                 kw = dict(nt=2, closer=closer, m=m, block=block, stream=stream,
                           reqs=1 if closer else 2,
-                          outcomes=("ok", "okclose", "fail") if not closer or block else ("ok", "fail"))
+                          outcomes=("ok", "okclose", "fail") if (closer or (m == 1 and block)) else ("ok", "fail"))
                 d8 = closer and block
                 plans.append((f"as-is m={m} block={block} closer={closer} stream={stream}", kw,
                               live_d8 if d8 else live_ok, []))
@@ -97,7 +101,12 @@ def _stage1_plans(quick):
     d8kw = dict(nt=2, closer=True, m=1, block=True, reqs=1, outcomes=("ok", "fail"))
     plans.append(("D8 as-is: EventuallyQuiescent must FAIL", d8kw, "PROPERTY EventuallyQuiescent\n", ["TemporalProperty"]))
     plans.append(("D8 repaired (WakeOnClose)", dict(d8kw, repairs=("WakeOnClose",)), live_ok, []))
-    plans.append(("D8 repaired (WakeOnClose) m=2 stream", dict(d8kw, m=2, stream=True, repairs=("WakeOnClose",)), live_ok, []))
+    if not quick:
+        plans.append(("D8 repaired (WakeOnClose) m=2 stream", dict(d8kw, m=2, stream=True, repairs=("WakeOnClose",)), live_ok, []))
+        # ... but the sentinel repair is NOT sufficient: with two waiters on a maxsize=1 pool a late put into the
+        # orphaned queue prevents the sentinel from being handed on and the second waiter still hangs
+        plans.append(("D8 sentinel repair is insufficient with 3 threads", dict(nt=3, closer=True, m=1, block=True, reqs=1,
+                      outcomes=("ok",), repairs=("WakeOnClose",)), "INVARIANT Inv_NoHang\n", ["Inv_NoHang"]))
     # deviations: every clause must be breakable (anti-vacuity of the invariants)
     nb = dict(nt=2, closer=True, m=1, block=False, reqs=1, outcomes=("ok",))
     plans.append(("dev D12", dict(nb, dev=("D12",)), SAFETY, ["Inv_ClosedPoolOutcome"]))
@@ -122,7 +131,7 @@ def _stage1_plans(quick):
     return plans
 
 
-_COVLINE = re.compile(r"^<(\w+) line (\d+), col (\d+) to line (\d+), col (\d+) of module PoolConc>: (\d+):(\d+)", re.M)
+_COVLINE = re.compile(r"^<(\w+) line \d+, col \d+ to line \d+, col \d+ of module PoolConc \((\d+) (\d+) (\d+) (\d+)\)>: (\d+):(\d+)", re.M)
 
 
 def _coverage(out):
@@ -132,7 +141,7 @@ def _coverage(out):
     cov = {}
     for m in _COVLINE.finditer(out):
         ln, c0, c1 = int(m.group(2)), int(m.group(3)), int(m.group(5))
-        text = src[ln - 1][c0 - 1:c1] if int(m.group(4)) == ln else m.group(1)
+        text = src[ln - 1][c0 - 1:c1] if int(m.group(4)) == ln else m.group(1)      # the use site, e.g. Crit(G1(t), t, "test")
         a = re.search(r"\b(Start|G1|G2|G3S|G3|G4|Send|Recv|Fin|RespRead|RespRelease|P2|P3Log|P3|P4|PEnd|End|C0|C1|C2|C3|Drop)\b", text)
         if a:
             d, t = cov.get(a.group(1), (0, 0))
@@ -142,14 +151,19 @@ def _coverage(out):
 
 def _run_plan(plan):
     name, kw, props, expect = plan
-    r = tlc.run("MC_PoolConc", mc_cfg(props=props, **kw), workers=2, heap="3g", timeout=3000,
-                expect_fail=bool(expect), coverage=not expect and "as-is" in name)
+    r = tlc.run("MC_PoolConc", mc_cfg(props=props, **kw), workers=TW, heap="3g", timeout=3000,
+                expect_fail=True, coverage=not expect and "as-is" in name)
+    if r.error and "Temporal propert" in r.error:      # TLC 1.8 wording: "Temporal property X was violated."
+        r.violated.append("TemporalProperty")
+        r.error = None
+    if r.error or not r.generated:
+        raise tlc.MachineryError(f"stage 1 '{name}': TLC failed: {r.error}\n{r.out[-2500:]}")
     return name, kw, expect, r
 
 
 def stage1(rep, quick):
     plans = _stage1_plans(quick)
-    with ThreadPoolExecutor(8) as ex:
+    with ThreadPoolExecutor(JVMS) as ex:
         results = list(ex.map(_run_plan, plans))
     cov_all = collections.Counter()
     for name, kw, expect, r in results:
@@ -339,7 +353,7 @@ def emit_orderings(kw):
         seen.setdefault(key, o)
         return True
 
-    r = tlc.run("MC_PoolConc", mc_cfg(keep=True, props="ACTION_CONSTRAINT Reduce\nACTION_CONSTRAINT Emit\n", **kw), workers=2, heap="3g",
+    r = tlc.run("MC_PoolConc", mc_cfg(keep=True, props="ACTION_CONSTRAINT Reduce\nACTION_CONSTRAINT Emit\n", **kw), workers=min(2, J), heap="3g",
                 timeout=3000, on_line=on_line)
     return r, [seen[k] for k in sorted(seen)]
 
@@ -402,12 +416,13 @@ def validate_all(pool, runs):
         groups[group_key(s["cfg"])].append({"id": i, "events": s["events"]})
     jobs = []
     for gk, trs in sorted(groups.items()):
-        for j in range(0, len(trs), 1500):
-            jobs.append((gk, trs[j:j + 1500]))
+        for j in range(0, len(trs), 4000):
+            jobs.append((gk, trs[j:j + 4000]))
     verdicts = {}
-    for vs, _ in pool.imap_unordered(validate_group, jobs):
-        for i, pos, clause, cls, drift in vs:
-            verdicts[i] = (pos, clause, cls, drift)
+    with ThreadPoolExecutor(JVMS) as ex:
+        for vs, _ in ex.map(validate_group, jobs):
+            for i, pos, clause, cls, drift in vs:
+                verdicts[i] = (pos, clause, cls, drift)
     if len(verdicts) != len(runs):
         raise tlc.MachineryError(f"trace validation returned {len(verdicts)} verdicts for {len(runs)} runs")
     return verdicts
@@ -469,13 +484,14 @@ def run(rep):
     cfgs = configurations(quick, rep.seed)
     all_runs = []
     trunc = 0
-    with mp.Pool(16) as pool:
+    with mp.Pool(J) as pool:
         # stage 2: orderings emitted by TLC (2 threads x 1 request, with / without closer)
         ekws = [dict(nt=2, closer=closer, m=1, block=block, reqs=1, stream=False, outcomes=("ok", "fail"))
                 for closer in (False, True) for block in (True, False)]
         if not quick:
             ekws += [dict(nt=2, closer=True, m=2, block=block, reqs=1, stream=True, outcomes=("ok", "fail")) for block in (True, False)]
-        emitted = list(pool.imap(_emit_job, ekws))
+        with ThreadPoolExecutor(JVMS) as ex:
+            emitted = list(ex.map(_emit_job, ekws))
         djobs = []
         n_emitted = n_classes = n_selected = 0
         rng = random.Random(rep.seed)
